@@ -458,3 +458,61 @@ func ruleCHECKPOINTPAIR(c *Ctx) {
 		c.add(rule, "count:", token.NoPos, CountDropped, true, "only %d checkpoint recording sites found (Scan: 2, generated lexers: 2 each where backtracking is used)", n)
 	}
 }
+
+// UNITS(scan-size): Tables.Scan has two integers called "start": the start-condition parameter
+// and the loop-local offset of the rune being classified. The size it returns (and records at
+// checkpoints) is an offset into text: every value that flows into the returned size is 0,
+// len(text) or derived from the byte cursor - never the start-condition parameter, which has the
+// same type. (At end of input the checkpoint branch records len(text): everything was consumed.)
+func ruleSCANSIZE(c *Ctx) {
+	const rule = "UNITS(scan-size)"
+	key := "lex.Tables.Scan:size"
+	f := c.SSAFunc("lex", "(*Tables).Scan")
+	if f == nil || len(f.Params) < 3 {
+		c.Lost(rule, key, "function not found")
+		return
+	}
+	startCond := f.Params[1]
+	n := 0
+	bad := token.NoPos
+	seen := map[ssa.Value]bool{}
+	var walk func(v ssa.Value, d int)
+	walk = func(v ssa.Value, d int) {
+		if seen[v] || d > 10 {
+			return
+		}
+		seen[v] = true
+		n++
+		switch x := v.(type) {
+		case *ssa.Parameter:
+			if x == startCond && bad == token.NoPos {
+				bad = x.Pos()
+			}
+		case *ssa.Phi:
+			for _, e := range x.Edges {
+				walk(e, d+1)
+			}
+		case *ssa.BinOp:
+			walk(x.X, d+1)
+			walk(x.Y, d+1)
+		case *ssa.Convert:
+			walk(x.X, d+1)
+		}
+	}
+	for _, b := range f.Blocks {
+		if ret, ok := b.Instrs[len(b.Instrs)-1].(*ssa.Return); ok && len(ret.Results) == 2 {
+			walk(ret.Results[0], 0)
+			if bad != token.NoPos && ret.Pos() != token.NoPos {
+				bad = ret.Pos()
+			}
+		}
+	}
+	switch {
+	case n < 3:
+		c.Lost(rule, key, "the size result of Scan was not found")
+	case bad != token.NoPos:
+		c.Bad(rule, key, bad, "the start-condition parameter flows into the size Scan returns: a token length is reported in units of start conditions (a token that ends at the end of input is cut short or becomes an invalid token)")
+	default:
+		c.Ok(rule, key, f.Pos(), "the returned size is made of 0, len(text) and cursor offsets only (%d values examined)", n)
+	}
+}
